@@ -240,6 +240,11 @@ def run(fx, tier):
     if 'R-CGRAPH' not in v.rules:
         v.rule('R-CGRAPH', 'do_write(): one forward pass over the queue without early exit; only throttled requests are skipped, and only for lack of quota')
     do_write_shape_rule(fx, v, 'C12')
+    # a restarted client keeps the configured keep-alive (shared with C10)
+    from c10 import config_copy_rule
+    if 'R-FLOW' not in v.rules:
+        v.rule('R-FLOW', 'provenance of K')
+    config_copy_rule(fx, v, 'C12')
     v.expect_min('R-FLOW', 20, 'sources and arming sites × TUs')
     v.expect_min('R-ARITH', 16, 'two timer functions × instantiations × (zero, all-K)')
     v.expect_min('R-CGRAPH', 30, 'ping loop paths')
